@@ -20,7 +20,7 @@ RULE = ('caches (and FanoutCache shards) holding inline, binary-file, text-file 
         'must be gone. evaluations = damage cases; distinct_nontrivial = distinct (container, sorted damage kinds, '
         'value modes hit) cases')
 DISTINCT = ('damage_cases',)
-REQUIRED = ('spelling_relative', 'spelling_dotdot', 'single_damage_cases', 'combined_damage_cases', 'fanout_cases', 'plain_checks_compared', 'fix_then_clean',
+REQUIRED = ('population_empty', 'cases_losing_every_value_file', 'spelling_relative', 'spelling_dotdot', 'single_damage_cases', 'combined_damage_cases', 'fanout_cases', 'plain_checks_compared', 'fix_then_clean',
             'items_read_after_fix', 'kinds_deleted', 'kinds_truncated', 'kinds_extended', 'kinds_unknown', 'kinds_emptydir',
             'kinds_count', 'kinds_size', 'checks_refused_under_a_held_lock', 'writes_completed_right_before_the_lock_of_check', 'journal_mode_wal', 'journal_mode_truncate', 'journal_mode_persist', 'journal_mode_delete')
 ASSUMPTIONS = ('a repair may legitimately add "empty directory" warnings for directories it has just emptied',)
@@ -36,7 +36,7 @@ def plan(tier):
 TWIN = pickletools.optimize(pickle.dumps(('user', 1), protocol=pickle.HIGHEST_PROTOCOL))
 
 
-def populate(c):
+def populate(c, population='full'):
     items = {
         'inline': 'small', 'int': 7, 'bin_file': b'B' * (T + 30), 'bin_file2': b'C' * (T + 90),
         'text_file': 'texte-é' * 20, 'text_file2': 'plain ascii text ' * 10, 'pickle_file': ['P' * (T + 50), 2, None],
@@ -45,6 +45,11 @@ def populate(c):
         # differ in the raw flag only) - both hold value files, so damage to one must not be repaired on the other
         ('user', 1): b'U' * (T + 40), TWIN: b'T' * (T + 60), 7: 'int-key-file ' * 12, b'bytes-key': ['L' * (T + 5)], None: 'n',
     }
+    # what the cache holds is a dimension: everything, only items with value files (a repair that deletes them all
+    # leaves an empty table), a single one, nothing
+    keep = {'full': list(items), 'files_only': ['bin_file', 'text_file', 'pickle_file', ('user', 1), TWIN, 7],
+            'single_file': ['pickle_file2'], 'empty': []}[population]
+    items = {k: v for k, v in items.items() if k in keep}
     for i, (k, v) in enumerate(items.items()):
         c.set(k, v, tag='t%d' % (i % 2), expire=1e6 if i % 3 == 0 else None)
     return items
@@ -199,20 +204,26 @@ def _case(dc, sc, res, rng, kinds, fanout, label, spelling):
     # none of them is a value file, none is damage
     journal = gen.pick(rng, ['wal', 'wal', 'truncate', 'persist', 'delete'])
     res.count('journal_mode_' + journal)
+    population = gen.pick(rng, ['full', 'full', 'full', 'files_only', 'single_file', 'empty'])
+    res.count('population_' + population)
     if fanout:
         f = dc.FanoutCache(d, shards=3, disk_min_file_size=T, **common.journal_kw(journal))
-        items = populate(f)
+        items = populate(f, population)
         f.close()
         shard_dirs = [os.path.join(d, '%03d' % i) for i in range(3)]
         target = gen.pick(rng, [s for s in shard_dirs if [r for r in table(s)[0] if r['filename']]] or shard_dirs)
         res.count('fanout_cases')
     else:
         c = dc.Cache(d, disk_min_file_size=T, **common.journal_kw(journal))
-        items = populate(c)
+        items = populate(c, population)
         c.close()
         target = d
     try:
         rows = table(target)[0]
+        if population in ('files_only', 'single_file') and rng.random() < 0.6:
+            # every value file is lost: the repair empties the table, and the counters must follow
+            kinds = ['deleted'] * len(rows) + list(kinds)
+            res.count('cases_losing_every_value_file')
         pre_rows_all = {sd: table(sd)[0] for sd in ([target] if not fanout else shard_dirs)}
         injected, done = [], set()
         for k in kinds:
@@ -226,7 +237,7 @@ def _case(dc, sc, res, rng, kinds, fanout, label, spelling):
             return
         modes = tuple(sorted({r['mode'] for _, _, r in injected if r}))
         res.seen('damage_cases', (fanout, tuple(sorted(kinds)), modes))
-        wit = {'label': label, 'kinds': kinds, 'fanout': fanout, 'directory_spelling': spelling, 'journal_mode': journal,
+        wit = {'label': label, 'kinds': kinds, 'fanout': fanout, 'population': population, 'directory_spelling': spelling, 'journal_mode': journal,
                'injected': [(w, os.path.relpath(p, d) if p else None) for w, p, _ in injected]}
         obj = dc.FanoutCache(d, shards=3) if fanout else dc.Cache(d)
         try:
